@@ -1,8 +1,8 @@
 #!/bin/bash
 # confirm a sub-agent's change in its worktree, archive it, remove the worktree, run the property's quick check against it
-# usage: tools/seeded_one.sh <PROP> <suffix> "<what it needs to manifest>"
+# usage: tools/seeded_one.sh <PROP> <suffix> "<what it needs to manifest>" [worktree]
 cd "$(dirname "$0")/.."
-p=$1; s=$2; needs=$3; wt=/tmp/wt_${p}_${s}; n=${p}_${s}
+p=$1; s=$2; needs=$3; wt=${4:-/tmp/wt_${p}_${s}}; n=${p}_${s}
 mkdir -p /root/seedlog
 tools/seeded.py confirm $wt $n $p "$needs" > /root/seedlog/confirm_$n.log 2>&1; rc=$?
 echo "$n confirm rc=$rc"
